@@ -366,15 +366,22 @@ pub fn run_lib_histories(rep: &mut Report, tier: &str, seed: u64, model: &Model,
     let mut rng = Rng::new(seed ^ 0x17);
     let mut hs: Vec<(CntHistory, &str)> = corpus_lines.iter().filter_map(|l| CntHistory::parse(l)).map(|h| (h, "corpus")).collect();
     if tier != "replay" {
-        let n = if tier == "thorough" { 400 } else { 60 };
+        let n = if tier == "thorough" { 600 } else { 150 };
         for _ in 0..n {
             let nsteps = rng.range(2, 3) as usize;
+            // a frequent first step: the plainest run there is (one thread, one chunk, numeric keys) that keeps its chunk files
+            let plain_first = rng.chance(1, 3);
             let mut steps: Vec<HistStep> = Vec::new();
             for i in 0..nsteps {
                 let reuse = i > 0 && !steps[i - 1].delete && rng.chance(1, 3);
                 let case = if reuse {
                     let mut c = steps[i - 1].case.clone();
-                    c.mem = *rng.pick(&[6.0, 8.0, 8e-9 * 40.0]);
+                    // a ceiling that leaves the partition count as it was (the second `count()` recomputes it; another value
+                    // would send the second merge looking for partitions the first pass never wrote — a use of the API the
+                    // property does not cover)
+                    if c.mem >= 1.0 {
+                        c.mem = *rng.pick(&[6.0, 8.0]);
+                    }
                     c.acgt = rng.chance(1, 2);
                     c
                 } else {
@@ -384,7 +391,21 @@ pub fn run_lib_histories(rep: &mut Report, tier: &str, seed: u64, model: &Model,
                     let total: usize = recs.iter().map(|r| r.len()).sum::<usize>().max(1);
                     CntCase { recs, k, threads: *rng.pick(&[1usize, 1, 2, 4, 7]), mem: *rng.pick(&[6.0, 6.0, 8e-9 * (total / 2).max(1) as f64, 8e-9]), acgt: rng.chance(1, 4), sched: "free".into() }
                 };
-                steps.push(HistStep { case, delete: rng.chance(1, 2), reuse });
+                let mut case = case;
+                let mut delete = rng.chance(1, 2);
+                if i == 0 && plain_first {
+                    case.threads = 1;
+                    case.mem = 6.0;
+                    case.acgt = false;
+                    delete = false;
+                    if case.recs.iter().all(|r| r.len() < case.k) {
+                        case.recs.push(gen::clean_seq(&mut rng, case.k + 30, gen::Flavor::Uniform));
+                    }
+                }
+                if i == 1 && plain_first && !reuse {
+                    case.threads = *rng.pick(&[2usize, 3, 4]);
+                }
+                steps.push(HistStep { case, delete, reuse });
             }
             hs.push((CntHistory { steps }, "library-histories"));
         }
